@@ -2,6 +2,7 @@
 use crate::ev::Tier;
 use std::path::PathBuf;
 
+pub mod c01;
 pub mod c09;
 pub mod c10;
 pub mod c14;
@@ -24,6 +25,9 @@ pub fn replay_files(id: &str) -> Vec<PathBuf> {
 
 pub fn run(id: &str, ctx: &Ctx) -> i32 {
     match id {
+        "C01" => c01::run01(ctx),
+        "C02" => c01::run02(ctx),
+        "C03" => c01::run03(ctx),
         "C09" => c09::run(ctx),
         "C10" => c10::run(ctx),
         "C14" => c14::run(ctx),
@@ -32,4 +36,40 @@ pub fn run(id: &str, ctx: &Ctx) -> i32 {
             2
         }
     }
+}
+
+/// The repository's own accepted grammars, imported through the front end's typed view.
+pub fn real_grammars() -> Vec<(crate::gm::Grammar, &'static str)> {
+    let mut out = vec![];
+    let mut paths: Vec<std::path::PathBuf> = vec![std::path::PathBuf::from("/repo/src/frontend/lelwel.llw")];
+    for dir in ["/repo/examples", "/repo/tests/frontend"] {
+        let mut stack = vec![std::path::PathBuf::from(dir)];
+        while let Some(d) = stack.pop() {
+            if let Ok(rd) = std::fs::read_dir(&d) {
+                for e in rd.flatten() {
+                    let p = e.path();
+                    if p.is_dir() {
+                        if p.file_name().is_some_and(|n| n != "target") {
+                            stack.push(p);
+                        }
+                    } else if p.extension().is_some_and(|x| x == "llw") {
+                        paths.push(p);
+                    }
+                }
+            }
+        }
+    }
+    paths.sort();
+    for p in paths {
+        let Ok(text) = std::fs::read_to_string(&p) else { continue };
+        let t2 = text.clone();
+        let ok = crate::lw::catch(move || crate::lw::accepted(&t2)).unwrap_or(false);
+        if !ok {
+            continue;
+        }
+        if let Some(g) = crate::lw::import(&text) {
+            out.push((g, "real"));
+        }
+    }
+    out
 }
